@@ -72,7 +72,7 @@ def gen_plan(rng, N, bounds) -> dict:
     if rng.random() < 0.15:
         op["abandon_at"] = rng.randint(0, 4)
     if rng.random() < 0.1:
-        op["k4"] = rng.randint(1, N + 1)
+        op["k4"] = gulp if rng.random() < 0.5 else rng.randint(1, N + 1)  # same block size as reader A half of the time
     return op
 
 
